@@ -3,9 +3,9 @@
            specifications say (K4_precedence, K4_key_plan, K4_allowed_keys).
    Part 2: the model of the generated code (KeyImpl.impl_from_dict, which *calls* the kernels)
            equals a kernel-free description `code_from_dict`, for every class and input.
-   Part 3: inside the domain, `code_from_dict` = the reference `keymodel` of the property text.
+   Part 3: `code_from_dict` = the reference `keymodel` of the property text, for every class and input.
    Part 4: the statements of the property about `keymodel`.
-   Part 5: the corner outside the domain (empty-string alias) is refuted by witnesses. *)
+   Part 5: the empty-string alias (repaired in /repo 7108448) behaves like any other alias. *)
 From Coq Require Import List String Ascii ZArith Bool Lia Btauto.
 From Verif Require Import Regex PyK PyK_alias KeyModel KeyImpl.
 From VerifGen Require Import K4.
@@ -134,22 +134,21 @@ Qed.
 (* ------------------------------------------------------------------ *)
 (* Part 1b: the keys read by the emitted d.get lines *)
 
-(* `alias or fname` *)
+(* `fname if alias is None else alias` *)
 Definition primary_name (a: option string) (n: string) : string :=
-  match a with Some s => if String.eqb s "" then n else s | None => n end.
+  match a with Some s => s | None => n end.
 
 Definition plan_spec (allow: bool) (a: option string) (n: string) : list key :=
   match a with
-  | Some s => if allow then [KeyS s; KeyS n] else [KeyS (primary_name a n)]
+  | Some s => if allow then [KeyS s; KeyS n] else [KeyS s]
   | None => [KeyS n]
   end.
 
 Lemma key_plan_spec : forall allow a n,
   key_plan (KBool allow) (enc_ostr a) (KStr n) = Ok (KTuple (map kv_of_key (plan_spec allow a n))).
 Proof.
-  intros allow a n. unfold key_plan, plan_spec, primary_name.
-  destruct allow, a as [s|]; cbn; try reflexivity;
-    destruct (String.eqb s ""); reflexivity.
+  intros allow a n. unfold key_plan, plan_spec.
+  destruct allow, a as [s|]; reflexivity.
 Qed.
 
 (* ------------------------------------------------------------------ *)
@@ -182,7 +181,7 @@ Lemma allowed_keys_spec : forall discr allow ff,
 Proof.
   intros discr allow ff. unfold allowed_keys, enc_ff, k_setcomp.
   erewrite (map_res_spec _ _ (fun p => kv_of_key (KeyS (primary_name (snd p) (fst p))))).
-  2:{ intros [n [s|]]; cbn [fst snd enc_ostr primary_name]; [destruct s|]; reflexivity. }
+  2:{ intros [n [s|]]; reflexivity. }
   cbn [bind].
   assert (Hn: forall l: list (string * option string),
              map_res (fun v_f => t9 <- k_index v_f 0;; Ok t9)
@@ -287,80 +286,61 @@ Proof.
 Qed.
 
 (* ------------------------------------------------------------------ *)
-(* Part 3: inside the domain the code is the reference keymodel *)
+(* Part 3: the code is the reference keymodel *)
 
-Lemma code_plan_candidates : forall c f, empty_alias c f = false -> code_plan c f = candidates c f.
+Lemma code_plan_candidates : forall c f, code_plan c f = candidates c f.
 Proof.
-  intros c f H. unfold code_plan, candidates, plan_spec, primary_name, empty_alias in *.
-  destruct (alias_of c f) as [s|]; [|reflexivity].
-  rewrite H. destruct (c_allow c); reflexivity.
+  intros c f. unfold code_plan, candidates, plan_spec.
+  destruct (alias_of c f) as [s|]; [|reflexivity]. destruct (c_allow c); reflexivity.
 Qed.
 
-Lemma code_fields_read_fields : forall c d fs,
-  forallb (fun f => negb (empty_alias c f)) fs = true -> code_fields c d fs = read_fields c d fs.
+Lemma code_fields_read_fields : forall c d fs, code_fields c d fs = read_fields c d fs.
 Proof.
-  intros c d fs. induction fs as [|f r IH]; cbn [forallb code_fields read_fields]; [reflexivity|].
-  intro H. apply andb_true_iff in H as [H1 H2]. apply negb_true_iff in H1.
-  unfold field_read. rewrite (code_plan_candidates _ _ H1), (IH H2). reflexivity.
+  intros c d fs. induction fs as [|f r IH]; cbn [code_fields read_fields]; [reflexivity|].
+  unfold field_read. rewrite code_plan_candidates, IH. reflexivity.
 Qed.
 
 Lemma accepted_members : forall c k fs,
-  forallb (fun f => negb (empty_alias c f)) fs = true ->
   kmem k (map (fun p => KeyS (primary_name (snd p) (fst p))) (map (fun f => (f_name f, alias_of c f)) fs))
   || (if c_allow c then kmem k (map (fun p => KeyS (fst p)) (map (fun f => (f_name f, alias_of c f)) fs)) else false)
   = kmem k (flat_map (candidates c) fs).
 Proof.
-  intros c k fs. induction fs as [|f r IH]; cbn [forallb map flat_map].
-  - intros _. destruct (c_allow c); reflexivity.
-  - intro H. apply andb_true_iff in H as [H1 H2]. apply negb_true_iff in H1.
-    specialize (IH H2). rewrite kmem_app, <- IH. cbn [fst snd].
-    unfold candidates, empty_alias, primary_name in *.
-    destruct (alias_of c f) as [s|].
-    + rewrite H1. destruct (c_allow c); unfold kmem; cbn [existsb]; btauto.
-    + destruct (c_allow c); unfold kmem; cbn [existsb]; btauto.
+  intros c k fs. induction fs as [|f r IH]; cbn [map flat_map].
+  - destruct (c_allow c); reflexivity.
+  - rewrite kmem_app, <- IH. cbn [fst snd].
+    unfold candidates, primary_name.
+    destruct (alias_of c f) as [s|]; destruct (c_allow c); unfold kmem; cbn [existsb]; btauto.
 Qed.
 
-Lemma code_accepted_members : forall c k, in_domain c = true ->
-  kmem k (code_accepted c) = kmem k (accepted c).
+Lemma code_accepted_members : forall c k, kmem k (code_accepted c) = kmem k (accepted c).
 Proof.
-  intros c k H. unfold in_domain in H.
-  apply andb_true_iff in H as [Hall Hd].
-  unfold code_accepted, allowed_spec, accepted.
-  rewrite !kmem_app, <- (accepted_members c k _ Hall).
-  assert (Hdk: discr_truthy (c_discr c) = discr_keys c).
-  { unfold discr_truthy, discr_keys, discr_ok in *. destruct (c_discr c) as [[s|]|]; try reflexivity.
-    apply negb_true_iff in Hd. now rewrite Hd. }
-  rewrite Hdk.
+  intros c k. unfold code_accepted, allowed_spec, accepted.
+  rewrite !kmem_app, <- (accepted_members c k).
+  change (discr_truthy (c_discr c)) with (discr_keys c).
   destruct (c_allow c); cbn [kmem existsb]; rewrite ?orb_false_r.
   - rewrite <- !orb_assoc. f_equal. apply orb_comm.
   - reflexivity.
 Qed.
 
-Theorem code_eq_keymodel : forall c d, in_domain c = true -> code_from_dict c d = keymodel c d.
+Theorem code_eq_keymodel : forall c d, code_from_dict c d = keymodel c d.
 Proof.
-  intros c d H. unfold code_from_dict, keymodel, extra_keys.
-  assert (Hall: forallb (fun f => negb (empty_alias c f)) (c_fields c) = true).
-  { unfold in_domain in H. now apply andb_true_iff in H as [H _]. }
+  intros c d. unfold code_from_dict, keymodel, extra_keys.
   assert (Hfilt: filter (fun k => negb (kmem k (code_accepted c))) (keys d)
                  = filter (fun k => negb (kmem k (accepted c))) (keys d)).
   { apply filter_ext. intro k. now rewrite code_accepted_members. }
-  rewrite Hfilt, (code_fields_read_fields _ _ _ Hall).
+  rewrite Hfilt, code_fields_read_fields.
   destruct (c_forbid c); destruct (filter (fun k => negb (kmem k (accepted c))) (keys d)); reflexivity.
 Qed.
 
-Theorem impl_eq_keymodel : forall c d, in_domain c = true -> impl_from_dict c d = Ok (keymodel c d).
-Proof. intros c d H. rewrite impl_eq_code. f_equal. now apply code_eq_keymodel. Qed.
+Theorem impl_eq_keymodel : forall c d, impl_from_dict c d = Ok (keymodel c d).
+Proof. intros c d. rewrite impl_eq_code. f_equal. apply code_eq_keymodel. Qed.
 
 (* every key the emitted lookup of a field can read is in the allowed set of forbid_extra_keys *)
-Theorem code_reads_allowed : forall c f k, in_domain c = true ->
+Theorem code_reads_allowed : forall c f k,
   In f (c_fields c) -> In k (code_plan c f) -> kmem k (code_accepted c) = true.
 Proof.
-  intros c f k H Hf Hk.
-  rewrite (code_accepted_members _ _ H).
-  assert (He: empty_alias c f = false).
-  { unfold in_domain in H. apply andb_true_iff in H as [H _].
-    rewrite forallb_forall in H. specialize (H f Hf). now apply negb_true_iff in H. }
-  rewrite (code_plan_candidates _ _ He) in Hk.
+  intros c f k Hf Hk.
+  rewrite code_accepted_members. rewrite code_plan_candidates in Hk.
   apply kmem_In. unfold accepted. apply in_or_app. left. apply in_flat_map. eauto.
 Qed.
 
@@ -510,21 +490,15 @@ Proof.
 Qed.
 
 (* ------------------------------------------------------------------ *)
-(* Part 5: the corner outside the domain (listed finding C09/empty-alias), by witness *)
+(* Part 5: the empty string is an alias like any other (repaired in /repo 7108448; before, `alias or fname`
+   made the lookup fall back to the field name) *)
 
 Definition w_empty : cls := mkC [mkF "x" (Some "") None false] [] false false None.
 Definition w_empty_d : dict := [(KeyS "", 1%Z); (KeyS "x", 2%Z)].
 
-Lemma empty_alias_refuted :
-  impl_from_dict w_empty w_empty_d = Ok (OInst [("x", Some (KeyS "x", 2%Z))])
-  /\ keymodel w_empty w_empty_d = OInst [("x", Some (KeyS "", 1%Z))].
-Proof. split; vm_compute; reflexivity. Qed.
-
-Definition w_empty2 : cls := mkC [mkF "x" (Some "") None false] [] true true None.
-
-(* with both options the emitted lookup reads '' but the extra-key check rejects it *)
-Lemma empty_alias_reads_not_allowed :
-  In (KeyS "") (code_plan w_empty2 (mkF "x" (Some "") None false))
-  /\ kmem (KeyS "") (code_accepted w_empty2) = false
-  /\ impl_from_dict w_empty2 [(KeyS "", 1%Z)] = Ok (OExtra [KeyS ""]).
-Proof. repeat split; vm_compute; auto. Qed.
+Lemma empty_alias_is_an_alias :
+  impl_from_dict w_empty w_empty_d = Ok (OInst [("x", Some (KeyS "", 1%Z))])
+  /\ keymodel w_empty w_empty_d = OInst [("x", Some (KeyS "", 1%Z))]
+  /\ impl_from_dict (mkC [mkF "x" (Some "") None false] [] true true None) [(KeyS "", 1%Z)]
+     = Ok (OInst [("x", Some (KeyS "", 1%Z))]).
+Proof. repeat split; vm_compute; reflexivity. Qed.
